@@ -94,7 +94,7 @@ type c17Case struct {
 	StopSp     int    `json:"stop_sp,omitempty"`     // how the stop directory is spelled
 }
 
-var c17SpellNames = []string{"clean", "trailing-slash", "trailing-slash-dot", "doubled-separator", "down-and-up"}
+var c17SpellNames = []string{"clean", "trailing-slash", "trailing-slash-dot", "doubled-separator", "down-and-up", "relative-to-the-working-directory"}
 
 // c17Spell: the same directory written differently. child is the name of a
 // sub-directory that exists ("" if none).
@@ -109,6 +109,12 @@ func c17Spell(dir string, sp int, child string) string {
 	case 4:
 		if child != "" {
 			return dir + "/" + child + "/.."
+		}
+	case 5:
+		if wd, err := os.Getwd(); err == nil {
+			if rel, err := filepath.Rel(wd, dir); err == nil {
+				return rel
+			}
 		}
 	}
 	return dir
@@ -294,6 +300,7 @@ func c17Worker(args []string) {
 			dirs[i] = d
 		}
 		os.MkdirAll(dirs[c17Depth-1], 0o755)
+		os.Chdir(base)
 		levels := make([]int, c17Depth)
 		var rec func(i int)
 		rec = func(i int) {
@@ -320,8 +327,11 @@ func c17Worker(args []string) {
 								continue
 							}
 						}
-						for ssp := 0; ssp < len(c17SpellNames); ssp++ {
-							for tsp := 0; tsp < len(c17SpellNames); tsp++ {
+						// both given relative to the working directory (which is the directory above the chain)
+						c.StartSp, c.StopSp = 5, 5
+						c17RunCase(c, dirs, unrelated, &res)
+						for ssp := 0; ssp < 5; ssp++ {
+							for tsp := 0; tsp < 5; tsp++ {
 								if ssp == 0 && tsp == 0 {
 									continue
 								}
@@ -414,6 +424,7 @@ func c17Check(tier string) int {
 	})
 	binCalls := c17Binary(run)
 	run.Set("binary_invocations", binCalls)
+	run.Set("deep_chain_calls", c17Deep(run))
 	if f := os.Getenv("VERIF_C17_SCHED"); f != "" {
 		var sp struct {
 			Calls  int64          `json:"calls"`
@@ -452,7 +463,57 @@ func c17Check(tier string) int {
 	return run.Finish()
 }
 
+// c17Deep: a start directory 1..300 levels below the only spokfile (and below stop): the
+// search has to climb all the way, however far that is.
+func c17Deep(run *ev.Run) int64 {
+	top := filepath.Join(pool.Scratch, "c17deep")
+	os.RemoveAll(top)
+	defer os.RemoveAll(top)
+	d := top
+	var dirs []string
+	for i := 0; i <= 300; i++ {
+		dirs = append(dirs, d)
+		d = filepath.Join(d, "k")
+	}
+	os.MkdirAll(dirs[300], 0o755)
+	var calls int64
+	for _, withSpok := range []bool{true, false} {
+		if withSpok {
+			os.WriteFile(filepath.Join(top, "spokfile"), []byte("# s\n"), 0o644)
+		} else {
+			os.Remove(filepath.Join(top, "spokfile"))
+		}
+		for _, depth := range []int{1, 2, 31, 32, 33, 63, 64, 65, 127, 128, 129, 255, 256, 257, 300} {
+			out := c17Find(dirs[depth], top)
+			calls++
+			want := filepath.Join(top, "spokfile")
+			key := fmt.Sprintf("deep chain depth=%d spokfile=%v", depth, withSpok)
+			c := map[string]any{"deep": depth, "spokfile": withSpok}
+			switch {
+			case out.Loop != "" || out.Panic != "":
+				run.Report(ev.Violation{Key: key, Class: "does-not-terminate", What: fmt.Sprintf("start %d levels below stop: %s%s", depth, out.Loop, out.Panic), Case: c})
+			case withSpok && out.Err != "":
+				run.Report(ev.Violation{Key: key, Class: "enclosing-spokfile-missed", What: fmt.Sprintf("the spokfile is in the stop directory, %d levels above the start directory: the search reported %s", depth, firstLine(out.Err)), Case: c})
+			case withSpok && out.Path != want:
+				run.Report(ev.Violation{Key: key, Class: "wrong-spokfile", What: fmt.Sprintf("start %d levels below stop: nearest is %s, got %s", depth, want, out.Path), Case: c})
+			case !withSpok && out.Err == "":
+				run.Report(ev.Violation{Key: key, Class: "found-outside-range", What: fmt.Sprintf("no spokfile between start and stop (%d levels) but %s was returned", depth, out.Path), Case: c})
+			}
+		}
+	}
+	return calls
+}
+
 func c17Replay(path string) int {
+	{
+		var v ev.Violation
+		data, _ := os.ReadFile(path)
+		json.Unmarshal(data, &v)
+		if _, deep := v.Case["deep"]; deep {
+			fmt.Println("this finding came from the deep-chain part of C17 (30 calls): re-run the check")
+			return 2
+		}
+	}
 	var v ev.Violation
 	data, _ := os.ReadFile(path)
 	json.Unmarshal(data, &v)
